@@ -5,6 +5,8 @@ EXTENDS Priors, IOUtils
 CONSTANTS QNum, QShift, QDen,   \* rational arguments {(n - QShift) / d : n \in QNum, d \in QDen}
           ENum, EShift,         \* exponents of linear-space arguments {e - EShift : e \in ENum}
           SNum, SDen,           \* standard deviations {n / d}
+          LSNum,                \* exponents of a width given in linear space: lin_std = 10^e, e \in LSNum (e > 0)
+          Keywords,             \* "independent" (the code) | "coupled" (expected counterexample), see Priors.tla: BuildK
           Export,
           Args                  \* "read_only" (the code) | "lin_in_place" (expected counterexample), see Priors.tla: ArgsFrame
 VARIABLES phase, call, out
@@ -16,18 +18,22 @@ ES == {e - EShift : e \in ENum}
 SS == {R(n, d) : n \in SNum, d \in SDen}
 QG == {x \in QS : RLe(RAbs(x), Q(100))}                  \* gaussian means (keeps the rationals inside 32 bits)
 Pairs(S) == {<<x, y>> \in S \X S : x # y}                 \* both orders, degenerate interval excluded
+\* every subset of the documented keywords: the first argument in its own space, in linear space (Log classes) or left
+\* out; the width of the normal kinds likewise
+UniArgs(cls) == {<<"bounds", b>> : b \in Pairs(QS)} \cup (IF cls = "LogUniform" THEN {<<"lin_bounds", b>> : b \in Pairs(ES)} ELSE {})
+                \cup {<<"", 0>>}
+MeanArgs(cls) == {<<"mean", m>> : m \in QG} \cup (IF cls = "LogGaussian" THEN {<<"lin_mean", e>> : e \in ES} ELSE {}) \cup {<<"", 0>>}
+StdArgs(cls) == {<<"std", s>> : s \in SS} \cup (IF cls = "LogGaussian" THEN {<<"lin_std", e>> : e \in LSNum} ELSE {}) \cup {<<"", 0>>}
 Calls ==
-    {[cls |-> "Uniform",     key1 |-> "bounds",     v1 |-> b, key2 |-> "",    v2 |-> 0] : b \in Pairs(QS)}
-    \cup {[cls |-> "LogUniform",  key1 |-> "bounds",     v1 |-> b, key2 |-> "",    v2 |-> 0] : b \in Pairs(QS)}
-    \cup {[cls |-> "LogUniform",  key1 |-> "lin_bounds", v1 |-> b, key2 |-> "",    v2 |-> 0] : b \in Pairs(ES)}
-    \cup {[cls |-> "Gaussian",    key1 |-> "mean",       v1 |-> m, key2 |-> "std", v2 |-> s] : m \in QG, s \in SS}
-    \cup {[cls |-> "LogGaussian", key1 |-> "mean",       v1 |-> m, key2 |-> "std", v2 |-> s] : m \in QG, s \in SS}
-    \cup {[cls |-> "LogGaussian", key1 |-> "lin_mean",   v1 |-> e, key2 |-> "std", v2 |-> s] : e \in ES, s \in SS}
+    UNION {{[cls |-> c, key1 |-> x[1], v1 |-> x[2], key2 |-> "", v2 |-> 0] : x \in UniArgs(c)} : c \in {"Uniform", "LogUniform"}}
+    \cup UNION {{[cls |-> c, key1 |-> m[1], v1 |-> m[2], key2 |-> s[1], v2 |-> s[2]] : m \in MeanArgs(c), s \in StdArgs(c)}
+                : c \in {"Gaussian", "LogGaussian"}}
+Forms == {<<c.cls, c.key1, c.key2>> : c \in Calls}
 
 NoOut == [p |-> [kind |-> "None", a |-> Q(0), b |-> Q(0)], s |-> <<>>, t |-> <<>>]
 Init == phase = "in" /\ call \in Calls /\ out = NoOut
 Eval == /\ phase = "in"
-        /\ LET p == Build(call) IN
+        /\ LET p == BuildK(Keywords, call) IN
              out' = [p |-> p, s |-> [k \in 1..(UN + 1) |-> IF (k - 1) \in Grid(p) THEN Sample(p, k - 1) ELSE Q(0)],
                      t |-> [i \in 1..Len(TailPts) |-> TailSample(p, TailPts[i])]]      \* the tail ladder
         /\ phase' = "done"
@@ -42,7 +48,10 @@ TailMonotoneInv == Done => TailMonotone(out.p)
 TailSymmetricInv == Done => TailSymmetric(out.p)
 OntoSupportInv == Done => OntoSupport(call, out.p)
 InverseCDFInv == Done => InverseCDF(out.p)
-LinArgsInv == Done => LinArgsEquivalent(call)
+LinArgsInv == Done => LinArgsEquivalentK(Keywords, call)
+\* a keyword that is left out has the value of the signature; 2 + 3 + 4 + 9 constructor forms
+OmittedInv == Done => OmittedIsSignature(Keywords, call)
+FormsInv == (phase = "in") => Cardinality(Forms) = 18
 TextInv == Done => TextEqualsDirect(call)
 SpaceInv == Done => (SpaceOf(out.p.kind) = "log") = (call.cls \in LogKinds)
 \* a default prior is the direct construction from mode and bounds, and its support is the bounds
@@ -60,6 +69,7 @@ FitsInv == Done => /\ Fits(out.p.a) /\ Fits(out.p.b)
 Emit == (Export /\ Done) =>
     PrintT(<<"VEC", ToJson([call |-> call, p |-> out.p, space |-> SpaceOf(out.p.kind), s |-> out.s, un |-> UN,
                             names |-> Spellings[call.cls], logform |-> LogForm(call),
+                            full |-> Complete(call), leftout |-> LeftOut(call), sig |-> [bounds |-> SigBounds, mean |-> SigMean, std |-> SigStd],
                             tpts |-> TailPts, t |-> out.t, zts |-> ZTS,
                             conts |-> Containers, scalars |-> ScalarKinds, twice |-> BuildTwice(Args, call, "ndarray")])>>)
 =============================================================================
